@@ -16,6 +16,10 @@ CharacterMatrix.get = the matrix inside DataSet.get, data= / file= / path= ident
 the document's characters; a fifth of the documents carries carriage returns inside quoted tokens, inside comments
 or as line terminators; the path= deviation is the finding source-dispatch:path-universal-newlines only when the
 universal-newline translation of the document explains it exactly).
+Interleaved histories (py/dv/c13_interleave.py): two or three readers alive at once, each on its own document and
+namespace - lazy Tree.yield_from_files iterators stepped alternately, eager reads between two next() steps; every reader
+= the same reader run alone = (iterators) its eager TreeList.get; no container object shared by two live symbol mappers;
+keys interleaved-iterators:*.
 """
 import io
 import json
@@ -26,6 +30,7 @@ import time
 
 from dv import core
 from dv import trees as dvtrees
+from dv import c13_interleave as interleave
 from dv.core import cz, clist, copt, cbool
 
 HEADER = ("From DV Require Import Model.PyPrims Model.C13Model Model.C13CharsCase.\n"
@@ -1518,15 +1523,23 @@ def search(ctx, budget_s):
     t0 = time.time()
     rng = random.Random(ctx.seed + 1313)
     n = 0
+    import sys
+    base = sys.modules[__name__]
+    pending = interleave.fixed_cases()
     while time.time() - t0 < budget_s and n < 5000:
-        case = gen_case(rng, rng.choice(["newick", "nexus", "nexus", "nexml"]))
-        obs = observe(case)
+        if pending or n % 3 == 2:
+            # interleaved route histories: readers alive at once, each on its own document and namespace
+            case = pending.pop(0) if pending else interleave.gen_case(rng, base)
+            vs = interleave.oracle_all(case, interleave.observe(case, base), base)
+        else:
+            case = gen_case(rng, rng.choice(["newick", "nexus", "nexus", "nexml"]))
+            vs = oracle_all(case, observe(case))
         n += 1
-        for v in oracle_all(case, obs):
+        for v in vs:
             ctx.violation(v[0], {"case": case}, key=v[1])
         if ctx.violations:
             return
-    ctx.notes.append("search: %d further documents through the oracle, no unlisted violation" % n)
+    ctx.notes.append("search: %d further documents / interleaved histories through the oracle, no unlisted violation" % n)
 
 
 def run(tier, seed, replay=None):
@@ -1536,13 +1549,19 @@ def run(tier, seed, replay=None):
         "the Newick statement parser is an arbitrary function in the theorems; the correspondence run instantiates it with a skeleton parser (statement boundaries, comments, rooting tokens, taxon symbol resolution)",
         "string / stream / path dispatch (beyond the characters handed to the tokenizer, Model/C13Newlines.v: path= = universal-newline translation, a hand transcription checked against a text-mode read of the temp file), NeXML routes, character matrices: implementation-side oracle only",
         "symbol mapper (wave 6): class NexusTaxonSymbolMapper is compiled by py/dv/gen_routes_mapper.py into Gen/RoutesMapper.v over coq/Model/C13MapPrims.v (dicts as association lists, CaseInsensitiveDict = lower-cased keys; trusted: these stated semantics, TaxonNamespace.label_taxon_map / new_taxon, case_sensitive=False folded) and proved equal to the model's mapper; the operations of C13GenPrims.v through which the block drivers use the mapper (construction, add_translate_token, lookup_taxon_symbol) are proved to be the compiled methods; bool defaults of compiled reader methods are read off the AST",
+        "readers alive at once (wave 7): py/dv/gen_routes_mapper_obj.py compiles the mapper class a second time over a store of container objects (coq/Model/C13MapObjPrims.v: which container each statement allocates / rebinds / mutates in place / reads; an attribute bound in the class body and not rebound by __init__ resolves to one container shared by all instances; the value-level translator fails closed on such an attribute); Proofs/C13MapObj.v proves the object-level methods refine the value-level ones with a frame, Proofs/C13MapObjSys.v that two mappers built in one store share no table and that any interleaving of two readers' mapper steps gives each the answers of the model's mapper run alone; trusted: the store semantics (identities, allocation on {} / CaseInsensitiveDict(..), in-place [k]=v / clear()) and that a reader touches its mapper only through construction / add_translate_token / lookup_taxon_symbol / require_taxon_for_symbol; the interleaved route histories of py/dv/c13_interleave.py tie this to the library by the implementation-side oracle only (they are not run through the model)",
         "translator tie (Gen/Routes.v, Props/C13Gen.v): trusted are the compiler py/dv/gen_routes.py and the stated Python meaning of the interface operations in coq/Model/C13GenPrims.v (tokenizer methods, _get_taxon_namespace, _get_taxon_symbol_mapper, _parse_translate_statement, _parse_taxa_block, _new_tree_list, _build_tree_from_newick_tree_string, comment processing, reader.read_tree_lists glue in Proofs/C13GenEntry.v route_reader); these are tied to the source by the correspondence run only",
     ]
     if replay:
         r = json.load(open(replay))["replay"]
         case = r["case"]
-        obs = observe(case)
-        vs = oracle_all(case, obs)
+        if case.get("kind") == "interleaved":
+            import sys
+            base = sys.modules[__name__]
+            vs = interleave.oracle_all(case, interleave.observe(case, base), base)
+        else:
+            obs = observe(case)
+            vs = oracle_all(case, obs)
         print("document:", case["doc"])
         print("oracle:", vs if vs else "no violation")
         return 1 if vs else 0
@@ -1595,6 +1614,21 @@ def run(tier, seed, replay=None):
         ctx.count("schema:nexml")
         for v in oracle_all(case, obs):
             ctx.violation(v[0], {"case": case}, key=v[1])
+    # interleaved route histories: implementation-side oracle (the model-level statement is Props/C13.v
+    # interleaved_readers_independent: mapper objects built by new_mapper share no table)
+    import sys
+    base = sys.modules[__name__]
+    il_cases = interleave.fixed_cases() + [interleave.gen_case(ctx.rng, base) for _ in range(400 if tier == "quick" else 6000)]
+    for case in il_cases:
+        try:
+            obs = interleave.observe(case, base)
+        except Exception as e:
+            ctx.violation("harness could not observe an interleaved history: %s: %s" % (type(e).__name__, e), {"case": case}, no_input=True)
+            continue
+        ctx.evaluations += 1
+        interleave.count_case(ctx, case, obs)
+        for v in interleave.oracle_all(case, obs, base):
+            ctx.violation(v[0], {"case": case}, key=v[1])
     return ctx.finish(level="proof",
                       rule="documents assembled from tree statements written by the library's NewickWriter / by a spec printer using the library's token escaping, "
                            "with hand-varied structure: Newick 0-6 statements (extra semicolons, comments, missing final semicolon); NEXUS 1-3 TREES blocks, 0-2 TAXA blocks "
@@ -1603,4 +1637,8 @@ def run(tier, seed, replay=None):
                            "truncated documents; every route run on the implementation (data=, file=, path=), Tree.get and TreeList.get for sampled (collection_offset, tree_offset) "
                            "incl. None, negative and out of range; thorough adds exhaustive small scopes (every Newick document of <= 3 statements over 3 statement forms x 3 separators x 2 endings; "
                            "every NEXUS document over TAXA block absent/plain/titled+LINK x two TREES blocks with 0-2 trees, TRANSLATE or not, rooting comment or not); "
-                           "a case is non-trivial when the document has >= 2 tree statements; distinct by full case content")
+                           "a case is non-trivial when the document has >= 2 tree statements; distinct by full case content; "
+                           "interleaved histories (oracle only): 2-3 readers alive at once, each on its own document (60% NEXUS with leaves named by taxon NUMBER, "
+                           "with no / complete / partial TRANSLATE tables with identity, shifted, permuted or non-numeric tokens; else the generators above) and its own "
+                           "namespace (a third pre-populated), the first a Tree.yield_from_files iterator, the others iterators (70%) or eager TreeList.get / Tree.get / "
+                           "DataSet.get / TreeList.read; schedules alternate / random / bursts; every reader re-observed after every step")
